@@ -28,7 +28,7 @@ pub mod model {
         pub b0: u128,
         pub b0_len: usize,
         pub len: usize,
-        /// data[PROBE] (0 when PROBE >= len)
+        /// data[PROBE.v] (0 when PROBE.v >= len)
         pub probe: u8,
         pub out: [u8; 4],
         pub full: [u8; FULL_MAX],
@@ -36,24 +36,33 @@ pub mod model {
     const ENC0: Enc = Enc { key: 0, input: 0, output: 0, decrypt: false };
     const MIC0: Mic = Mic { key: 0, b0: 0, b0_len: 0, len: 0, probe: 0, out: [0; 4], full: [0; FULL_MAX] };
 
-    pub static mut ENC: [Enc; ENC_MAX] = [ENC0; ENC_MAX];
-    pub static mut ENC_N: usize = 0;
-    pub static mut MICS: [Mic; MIC_MAX] = [MIC0; MIC_MAX];
-    pub static mut MIC_N: usize = 0;
+    /// Every harness static carries a unique tag: Kani resolves a *constant* whose bytes equal a
+    /// static's initial bytes to that static (rustc interns allocations by content), so writing to a
+    /// `static mut FLAG: bool = false` silently changed constants such as `DR::_0` in the code under
+    /// test (found on macs_r0_linkadr2, see DESIGN 9.4).  Unique initial content rules this out.
+    #[repr(C)]
+    pub struct Uq<T> {
+        pub magic: u64,
+        pub v: T,
+    }
+    pub static mut ENC: Uq<[Enc; ENC_MAX]> = Uq { magic: 0x6C727600F4F66290, v: [ENC0; ENC_MAX] };
+    pub static mut ENC_N: Uq<usize> = Uq { magic: 0x6C7276003F63416B, v: 0 };
+    pub static mut MICS: Uq<[Mic; MIC_MAX]> = Uq { magic: 0x6C7276001060B48F, v: [MIC0; MIC_MAX] };
+    pub static mut MIC_N: Uq<usize> = Uq { magic: 0x6C72760092C43213, v: 0 };
     /// universally quantified index at which MIC input data is sampled (set by the harness)
-    pub static mut PROBE: usize = 0;
+    pub static mut PROBE: Uq<usize> = Uq { magic: 0x6C727600EC08FD4E, v: 0 };
     /// impose D(E(x)) = x and E(D(x)) = x under the same key
-    pub static mut INVERSE: bool = false;
+    pub static mut INVERSE: Uq<bool> = Uq { magic: 0x6C7276001413CA17, v: false };
     /// keep a full copy of MIC data (<= FULL_MAX bytes) and impose consistency of MIC calls
-    pub static mut MIC_FULL: bool = false;
+    pub static mut MIC_FULL: Uq<bool> = Uq { magic: 0x6C7276001C3D5F77, v: false };
     /// number of earlier entries against which consistency is imposed (keeps formulas small)
-    pub static mut CONSISTENT: bool = true;
+    pub static mut CONSISTENT: Uq<bool> = Uq { magic: 0x6C7276000D936FE6, v: true };
 
     pub fn reset(probe: usize) {
         unsafe {
-            ENC_N = 0;
-            MIC_N = 0;
-            PROBE = probe;
+            ENC_N.v = 0;
+            MIC_N.v = 0;
+            PROBE.v = probe;
         }
     }
 
@@ -107,19 +116,19 @@ pub mod model {
         let input = pack(blk);
         let output: u128 = kani::any();
         unsafe {
-            let n = ENC_N;
+            let n = ENC_N.v;
             assert!(n < ENC_MAX, "crypto model: block log full");
-            if CONSISTENT {
+            if CONSISTENT.v {
                 let mut i = 0;
                 while i < ENC_MAX {
                     if i < n {
-                        let p = ENC[i];
+                        let p = ENC.v[i];
                         if p.key == key {
                             if p.decrypt == decrypt {
                                 if p.input == input {
                                     kani::assume(output == p.output);
                                 }
-                            } else if INVERSE {
+                            } else if INVERSE.v {
                                 if p.output == input {
                                     kani::assume(output == p.input);
                                 }
@@ -129,8 +138,8 @@ pub mod model {
                     i += 1;
                 }
             }
-            ENC[n] = Enc { key, input, output, decrypt };
-            ENC_N = n + 1;
+            ENC.v[n] = Enc { key, input, output, decrypt };
+            ENC_N.v = n + 1;
         }
         unpack(output, blk);
     }
@@ -138,7 +147,7 @@ pub mod model {
     pub fn mic(key: u128, b0: &[u8], data: &[u8]) -> [u8; 4] {
         let out: [u8; 4] = kani::any();
         unsafe {
-            let n = MIC_N;
+            let n = MIC_N.v;
             assert!(n < MIC_MAX, "crypto model: mic log full");
             assert!(b0.len() == 0 || b0.len() == 16, "B0 must be empty or one block");
             let mut e = Mic {
@@ -146,11 +155,11 @@ pub mod model {
                 b0: if b0.len() == 16 { pack(b0) } else { 0 },
                 b0_len: b0.len(),
                 len: data.len(),
-                probe: if PROBE < data.len() { data[PROBE] } else { 0 },
+                probe: if PROBE.v < data.len() { data[PROBE.v] } else { 0 },
                 out,
                 full: [0; FULL_MAX],
             };
-            if MIC_FULL {
+            if MIC_FULL.v {
                 assert!(data.len() <= FULL_MAX, "crypto model: MIC data longer than FULL_MAX");
                 let mut i = 0;
                 while i < FULL_MAX {
@@ -162,7 +171,7 @@ pub mod model {
                 let mut j = 0;
                 while j < MIC_MAX {
                     if j < n {
-                        let p = &MICS[j];
+                        let p = &MICS.v[j];
                         if p.key == key && p.b0 == e.b0 && p.b0_len == e.b0_len && p.len == e.len {
                             let mut same = true;
                             let mut i = 0;
@@ -181,8 +190,8 @@ pub mod model {
                     j += 1;
                 }
             }
-            MICS[n] = e;
-            MIC_N = n + 1;
+            MICS.v[n] = e;
+            MIC_N.v = n + 1;
         }
         out
     }
